@@ -1251,6 +1251,7 @@ func (c *Client) readSlices() (message, topic []byte, err error) {
 				c.peek = nil
 				err := c.discard(payloadSize)
 				if err != nil {
+					c.toOffline()
 					return nil, nil, err
 				}
 				continue
